@@ -449,13 +449,21 @@ func MergeVal(eVal *sutils.CValueEnclosure, eValToMerge sutils.CValueEnclosure, 
 			// sutils.Reduce already handles unsupported dtypes
 			aggFunc = sutils.Sum
 			// calculate score based on the columns value
-			eValToMerge = eValToMerge.CVal.(structs.RunningLatestOrEarliestVal).Value
+			castedEValToMerge, ok := eValToMerge.CVal.(structs.RunningLatestOrEarliestVal)
+			if !ok {
+				// no event of this series carries the field in this bucket: nothing to add
+				return
+			}
+			eValToMerge = castedEValToMerge.Value
 		} else {
-			if eVal.Dtype == sutils.SS_INVALID {
+			castedEValToMerge, ok := eValToMerge.CVal.(structs.RunningLatestOrEarliestVal)
+			if !ok {
+				return
+			}
+			castedEVal, ok := eVal.CVal.(structs.RunningLatestOrEarliestVal)
+			if eVal.Dtype == sutils.SS_INVALID || !ok {
 				eVal = &eValToMerge
 			} else {
-				castedEVal := eVal.CVal.(structs.RunningLatestOrEarliestVal)
-				castedEValToMerge := eValToMerge.CVal.(structs.RunningLatestOrEarliestVal)
 				ts := castedEVal.Timestamp
 				tsToMerge := castedEValToMerge.Timestamp
 				if aggFunc == sutils.Latest {
